@@ -374,7 +374,7 @@ def k4_run(prop, tier, seed):
 
 
 CANDIDATES = {
-    "C01": K1Spec("C01", ["C01"], extra=[lambda prop, tier, seed: __import__("k_extra").run_c01_faults(prop, tier, seed)]),
+    "C01": K1Spec("C01", ["C01"], more_profiles=["C04"], extra=[lambda prop, tier, seed: __import__("k_extra").run_c01_faults(prop, tier, seed)]),
     "C02": K1Spec("C02", ["C02"]),
     "C03": K1Spec("C03", ["C03", "C02-read"], extra=[plain_run, c03_order], more_profiles=["C03b"]),
     "C04": K1Spec("C04", ["C01/C04"]),
@@ -401,7 +401,7 @@ CANDIDATES = {
     "C13": ConcSpec([k2_run, k3_runner("c13")], trust=CONC_TRUST, assume=CONC_ASSUME,
                     expl="Theorems in coq/Props/C13.v: buffered mutators hold the class-wide buffer lock for their whole duration (computed), hence every schedule "
                          "is serial (C09's theorem with one lock); K3 explores real schedules inside buffer_backend(capacity) incl. capacities forcing flushes."),
-    "C14": ConcSpec([k3_runner("c14"), lambda prop, tier, seed: dict(__import__("k4").run(tier, seed, shape_only=True), name="K4/shape (a reader of another object sees a complete file: temp file written and closed, then renamed)")],
+    "C14": ConcSpec([k3_runner("c14"), lambda prop, tier, seed: __import__("k_extra").run_c14_reader_at_rename(prop, tier, seed), lambda prop, tier, seed: dict(__import__("k4").run(tier, seed, shape_only=True), name="K4/shape (a reader of another object sees a complete file: temp file written and closed, then renamed)")],
                     findings=("D18",), trust=CONC_TRUST,
                     assume=CONC_ASSUME + ["PARTIAL: the same-object case (and two objects sharing one container in the shared-memory strategy) is known finding D18"],
                     expl="coq/Props/C14.v: full statement kept visible and refuted (D18); proved part: readers on objects no writer uses. "
